@@ -500,21 +500,34 @@ func (g *gen) name() (string, string) {
 	}
 }
 
+// remainders as the handler sees them (decoded r.URL.Path): plain segments, and everything that
+// URL escaping / path cleaning treats specially — literal '%' (also in forms that would decode a
+// second time, and a lone trailing one), empty, "." and ".." segments, reserved characters
+var oddRests = []string{
+	"a b/c", "this is ? a file.png", "50%/x#y", "a+b&c=d", "dir/",
+	"enc/%41.txt", "sale/100%.txt", "a//b.txt", "%", "x%", "%25", "%2F", "a%2Fb/c", "%zz/q", "100%25 sure", "%%", "a/%/b",
+	"a///b", "a//", "a/./b", "a/../b", "./x", "../x", "a/.", "a/..",
+	"a;b=c/d", "a:b@c", "x=1&y=2", "[v6]", "q?r#s", "it's \"q\"", "~t!$*(),",
+}
+
 func (g *gen) rest() string {
 	switch g.n(8) {
 	case 0:
 		return ""
 	case 1:
 		return "/"
-	case 2:
-		return "/" + g.pick("a b/c", "this is ? a file.png", "50%/x#y", "a+b&c=d", "dir/")
-	case 3:
+	case 2, 3, 4:
+		return "/" + oddRests[g.n(len(oddRests))]
+	case 5:
 		return "//" + g.label(4)
 	default:
 		k := 1 + g.n(3)
 		s := ""
 		for i := 0; i < k; i++ {
 			s += "/" + g.label(5)
+			if g.chance(6) {
+				s += g.pick("%", "%41", "%25", "/", " ", "?")
+			}
 		}
 		if g.chance(4) {
 			s += "/"
@@ -830,7 +843,12 @@ func corpus() []scenario {
 	}
 	const fq, lab = "my.v-long.example.com", "my-v--long-example-com"
 	both := []string{fq, lab}
-	return append([]scenario{
+	// remainders with a literal '%' (sent as %25), an empty segment, dot segments: the redirect keeps them
+	var rests []scenario
+	for _, rest := range []string{"enc/%41.txt", "sale/100%.txt", "a//b.txt", "x%", "a/../b", "q?r#s/"} {
+		rests = append(rests, mk(sub, nil, "dweb.link", "/ipfs/bafkqaaa/"+rest, "", "", false, &intent{Gw: "dweb.link", Ns: "ipfs", Root: "bafkqaaa", Rest: rest}, "ipfs"))
+	}
+	return append(append(rests, []scenario{
 		// FQDN and its inlined label BOTH have a DNSLink record: the FQDN takes precedence in host -> path
 		// (https redirect, inlining gateway, direct subdomain request; then label-only / neither)
 		mk(sub, both, "dweb.link", "/ipns/"+fq+"/dir/file", "x=1", "", true, &intent{Gw: "dweb.link", Ns: "ipns", Root: fq, Rest: "dir/file", Query: "x=1", HTTPS: true}, "ipns"),
@@ -855,7 +873,7 @@ func corpus() []scenario {
 		mk(pathgw, nil, "ipfs.io", "/ipfs/"+v0+"/x", "", "", false, &intent{Gw: "ipfs.io", Ns: "ipfs", Root: v0, Rest: "x"}, "ipfs"),
 		mk(pathgw, []string{"docs.ipfs.tech"}, "docs.ipfs.tech", "/install/", "", "", false, &intent{Ns: "ipns", Root: "docs.ipfs.tech", Rest: "install/"}, "ipns"),
 		mk(sub, nil, "bafybeickencdqw37dpz3ha36ewrh4undfjt2do52chtcky4rxkj447qhdm.ipns.dweb.link", "/", "", "", false, &intent{Gw: "dweb.link", Ns: "ipns", Root: "bafybeickencdqw37dpz3ha36ewrh4undfjt2do52chtcky4rxkj447qhdm"}, "ipns"),
-	}, boundary...)
+	}...), boundary...)
 }
 
 func TestC32(t *testing.T) {
